@@ -6,10 +6,12 @@ import (
 	"bytes"
 	"encoding/binary"
 	"fmt"
+	"io"
 	"os"
 
 	"github.com/bbva/qed/balloon"
 	"github.com/bbva/qed/balloon/history"
+	"github.com/bbva/qed/consensus"
 	"github.com/bbva/qed/crypto/hashing"
 	"github.com/bbva/qed/storage"
 	"github.com/bbva/qed/storage/bplus"
@@ -178,13 +180,99 @@ func extraC09(w *worldA, s Step) bool {
 // start right after the position's version.
 func (w *worldA) gapFetch(s Step) {
 	e := w.e
+	r := w.r
 	l := w.node(-1)
-	if l == nil || !l.up || l.rn.SimBalloonVersion() < 3 {
+	if l == nil || !l.up || l.rn.SimBalloonVersion() < 3 || l.seqAfter == nil {
 		return
 	}
-	// TODO(strengthen): crafted requests; the organic transfers of this profile
-	// already cover refusal through "probe.install_failed".
-	_ = e
+	n := l.rn.SimBalloonVersion()
+	// event counts at which the leader itself finished an apply, in order
+	var marks []uint64
+	for k := range l.seqAfter {
+		if k <= n {
+			marks = append(marks, k)
+		}
+	}
+	sortU64(marks)
+	if len(marks) < 3 {
+		return
+	}
+	rng := r.StepRng("gapfetch")
+	fi := rng.IntN(len(marks) - 2)          // the follower's position: marks[fi] events
+	gi := fi + 1 + rng.IntN(len(marks)-fi-2) // it asks from here on: one or more batches are skipped
+	nf := marks[fi]
+	// (1) a scratch follower brought to position nf by a regular transfer
+	dir, err := os.MkdirTemp(e.baseDir, "gap")
+	if err != nil {
+		r.Bug("mkdtemp: %v", err)
+	}
+	defer os.RemoveAll(dir)
+	st, err := rocks.NewRocksDBStore(dir, 0)
+	if err != nil {
+		r.Bug("scratch store: %v", err)
+	}
+	defer st.Close()
+	fetch := func(start, end, lastApplied uint64) ([][]byte, error) {
+		var chunks [][]byte
+		srv := &consensus.SimServerStream{OnSend: func(c []byte) error { chunks = append(chunks, c); return nil }}
+		var ferr error
+		cp := Capture(func() {
+			ferr = l.rn.FetchSnapshot(&consensus.FetchSnapshotRequest{StartSeqNum: start, EndSeqNum: end, LastAppliedVersion: lastApplied}, srv)
+		})
+		if cp != nil {
+			e.failPanic(l, "FetchSnapshot (server side)", cp)
+		}
+		return chunks, ferr
+	}
+	load := func(chunks [][]byte) error {
+		var buf bytes.Buffer
+		for _, c := range chunks {
+			buf.Write(c)
+		}
+		return st.LoadSnapshot(io.NopCloser(&buf))
+	}
+	if nf > 0 {
+		chunks, ferr := fetch(0, l.seqAfter[nf], 0)
+		if ferr != nil || load(chunks) != nil {
+			return // the regular transfer itself is judged by the other oracles
+		}
+	}
+	lastApplied := uint64(0)
+	if nf > 0 {
+		lastApplied = nf - 1
+	}
+	// (2) the crafted request: sequence numbers that "ran ahead" of the position
+	chunks, ferr := fetch(l.seqAfter[marks[gi]], l.raw.LastWALSequenceNumber(), lastApplied)
+	r.Logf("GAPFETCH follower at %d events asks from the batch after %d events (skipping %d events): %d chunks, err=%v", nf, marks[gi], marks[gi]-nf, len(chunks), ferr)
+	r.Count("fault.gap_request")
+	if ferr != nil {
+		r.Count("probe.gap_refused")
+		return
+	}
+	if len(chunks) == 0 {
+		return
+	}
+	if err := load(chunks); err != nil {
+		return
+	}
+	// (3) whatever was accepted must not have left a hole: history leaves dense from 0
+	have := map[uint64]bool{}
+	max := uint64(0)
+	for _, kv := range readAll(st, storage.HistoryTable, 512) {
+		if len(kv.Key) == 10 && kv.Key[8] == 0 && kv.Key[9] == 0 {
+			v := binary.BigEndian.Uint64(kv.Key[:8])
+			have[v] = true
+			if v > max {
+				max = v
+			}
+		}
+	}
+	for v := uint64(0); v <= max; v++ {
+		if !have[v] {
+			r.Fail("gap-refused", "a follower holding %d events asked for the batches after sequence number %d (skipping %d events); the leader served the transfer and the follower's log now lacks version %d below its highest version %d", nf, l.seqAfter[marks[gi]], marks[gi]-nf, v, max)
+		}
+	}
+	r.Count("probe.gap_request_accepted_without_hole")
 }
 
 // ---- C04 ----------------------------------------------------------------------
